@@ -85,46 +85,57 @@ def norm (f : Flavour) : Ev → Option Ev
   | e => some e
 
 /-- the connection is gone: `on_conn_lost(exc)`; `reconnect` says whether
-    `conn_lost_callback()` is called.  Sync: the new connect thread dials only `while
-    transport.protocol`; asyncio: `async_connect` is `while True`. -/
-def lose (f : Flavour) (s : L) (exc reconnect : Bool) : L × List Out :=
-  if reconnect && (f.isAsync || s.proto) then
+    `conn_lost_callback()` is called.  The new connect thread / task dials only `while
+    transport.protocol`.  (`fx = false`: the tree before the two C20 repairs, where the asyncio
+    `async_connect` loops were `while True`.) -/
+def lose (fx : Bool) (f : Flavour) (s : L) (exc reconnect : Bool) : L × List Out :=
+  if reconnect && ((!fx && f.isAsync) || s.proto) then
     ({ s with link := .attempting f.isAsync }, [.connLost exc, .connectAttempt])
   else ({ s with link := .idle }, [.connLost exc])
 
-/-- after a failed attempt and the sleep -/
-def retry (f : Flavour) (s : L) : L × List Out :=
-  if f.isAsync || s.proto then (s, [.connectAttempt]) else ({ s with link := .idle }, [])
+/-- after a failed attempt and the sleep: the loop condition `while transport.protocol` -/
+def retry (fx : Bool) (f : Flavour) (s : L) : L × List Out :=
+  if (!fx && f.isAsync) || s.proto then (s, [.connectAttempt]) else ({ s with link := .idle }, [])
 
-def stepAttempting (f : Flavour) (s : L) (tr : Bool) : Ev → L × List Out
+def stepAttempting (fx : Bool) (f : Flavour) (s : L) (tr : Bool) : Ev → L × List Out
   | .connectOk =>
     -- protocol_factory() returns transport.protocol; None after a disconnect → AttributeError
     if s.proto then ({ s with link := .up }, [.connMade]) else ({ s with link := .idle }, [.crash])
-  | .connectFail => retry f s
-  | .connectTimeout => retry f s
+  | .connectFail => retry fx f s
+  | .connectTimeout => retry fx f s
   | .userDisconnect => ({ s with proto := false }, [])
   | .stop =>
     -- AsyncTasks.stop cancels transport.connect_task; the connect of `await gateway.start()`
-    -- is not that task
+    -- is not that task: it ends at its next loop test because the protocol is gone
     if f.isAsync && tr then ({ proto := false, link := .idle }, []) else ({ s with proto := false }, [])
   | _ => (s, [])
 
-def stepUp (f : Flavour) (s : L) (eof : Bool) : Ev → L × List Out
+/-- asyncio TCP, orderly close by the peer.  Repaired code: `eof_received` calls
+    `conn_lost_callback()` (the connect task starts dialling), then the transport closes and
+    `connection_lost(None)` fires `on_conn_lost`.  Before the repair: `connection_lost(None)`
+    only, no reconnect. -/
+def asyncEof (fx : Bool) (f : Flavour) (s : L) : L × List Out :=
+  if fx then
+    if s.proto then ({ s with link := .attempting true }, [.connectAttempt, .connLost false])
+    else ({ s with link := .idle }, [.connLost false])
+  else lose fx f s false false
+
+def stepUp (fx : Bool) (f : Flavour) (s : L) (eof : Bool) : Ev → L × List Out
   | .send => (s, [.write])
   | .writeError =>
     -- sync: send catches OSError, transport.close() makes the reader leave with error None,
     --       then conn_lost_callback();   asyncio: the transport reports connection_lost(exc)
-    if f.isAsync then lose f s true true else lose f s false true
-  | .readError => lose f s true true
+    if f.isAsync then lose fx f s true true else lose fx f s false true
+  | .readError => lose fx f s true true
   | .peerCloseOrderly =>
     if eof then (s, [])
-    else if f.isAsync then lose f s false false     -- connection_lost(None): no reconnect
+    else if f.isAsync then asyncEof fx f s
     else ({ s with link := .upEof }, [])            -- TCPTransport.run ignores `recv() == b""`
   | .probeTimeout =>
     -- one I_VERSION probe is written, then: sync raises OSError in the reader
     -- (connection_lost(exc)); asyncio closes the transport (connection_lost(None)) and calls
     -- conn_lost_callback() itself
-    let r := if f.isAsync then lose f s false true else lose f s true true
+    let r := if f.isAsync then lose fx f s false true else lose fx f s true true
     (r.1, .write :: r.2)
   | .userDisconnect => ({ proto := false, link := .idle }, [.connLost false])
   | .stop => ({ proto := false, link := .idle }, [.connLost false])
@@ -135,21 +146,33 @@ def stepIdle (s : L) : Ev → L × List Out
   | .stop => ({ s with proto := false }, [])
   | _ => (s, [])
 
-def stepNorm (f : Flavour) (s : L) (e : Ev) : L × List Out :=
+def stepNorm (fx : Bool) (f : Flavour) (s : L) (e : Ev) : L × List Out :=
   match s.link with
   | .idle => stepIdle s e
-  | .attempting tr => stepAttempting f s tr e
-  | .up => stepUp f s false e
-  | .upEof => stepUp f s true e
+  | .attempting tr => stepAttempting fx f s tr e
+  | .up => stepUp fx f s false e
+  | .upEof => stepUp fx f s true e
 
-/-- one event -/
-def lstep (f : Flavour) (s : L) (e : Ev) : L × List Out :=
+/-- one event; `fx = true` is the code as it is now, `fx = false` the code before the repairs
+    of `async_connect` (loop condition) and `AsyncTCPMySensorsProtocol.eof_received` -/
+def lstepG (fx : Bool) (f : Flavour) (s : L) (e : Ev) : L × List Out :=
   match norm f e with
   | none => (s, [])
-  | some e' => stepNorm f s e'
+  | some e' => stepNorm fx f s e'
+
+/-- the current code -/
+def lstep (f : Flavour) (s : L) (e : Ev) : L × List Out := lstepG true f s e
 
 /-- state after `start()`: the first attempt is in flight (not tracked) -/
 def linit : L := { proto := true, link := .attempting false }
+
+def finalG (fx : Bool) (f : Flavour) (s : L) : List Ev → L
+  | [] => s
+  | e :: es => finalG fx f (lstepG fx f s e).1 es
+
+def outsOfG (fx : Bool) (f : Flavour) (s : L) : List Ev → List Out
+  | [] => []
+  | e :: es => (lstepG fx f s e).2 ++ outsOfG fx f (lstepG fx f s e).1 es
 
 def final (f : Flavour) (s : L) : List Ev → L
   | [] => s
@@ -213,14 +236,23 @@ structure T where
   now : Nat
   deriving DecidableEq, Repr
 
-def tstep (f : Flavour) (rt : Nat) (t : T) (e : Ev) : T × List (Nat × Out) :=
-  let r := lstep f t.l e
+def tstepG (fx : Bool) (f : Flavour) (rt : Nat) (t : T) (e : Ev) : T × List (Nat × Out) :=
+  let r := lstepG fx f t.l e
   let dt := advance f rt t.l e
   let isProbe := norm f e == some .probeTimeout
   ({ l := r.1, now := t.now + dt },
    r.2.map fun o => (if isProbe && o == .write then t.now + probeAt f rt else t.now + dt, o))
 
+def tstep (f : Flavour) (rt : Nat) (t : T) (e : Ev) : T × List (Nat × Out) := tstepG true f rt t e
+
 def tinit : T := { l := linit, now := 0 }
+
+def trunG (fx : Bool) (f : Flavour) (rt : Nat) (t : T) : List Ev → T × List (List (Nat × Out))
+  | [] => (t, [])
+  | e :: es =>
+    let r := tstepG fx f rt t e
+    let rest := trunG fx f rt r.1 es
+    (rest.1, r.2 :: rest.2)
 
 def trun (f : Flavour) (rt : Nat) (t : T) : List Ev → T × List (List (Nat × Out))
   | [] => (t, [])
